@@ -185,3 +185,124 @@ def case_k_range(r):
 def post_case_view(r):
     """when the conversion keeps the length, every position keeps its settings"""
     return view_texts(r.result, r.k) == view_texts(r.old_self, r.k)
+
+
+# ------------------------------------------------------------------------------------------ X3 / Y1: strip family
+def strip_set(r):
+    """the characters to strip: the documented default set when chars is None"""
+    if r.chars is None:
+        return ' \t\n\r\v\f'
+    return r.chars
+
+
+def strip_expected(r):
+    t = r.old_self._s
+    cs = strip_set(r)
+    if r.do_lstrip and r.do_rstrip:
+        return t.strip(cs)
+    if r.do_lstrip:
+        return t.lstrip(cs)
+    if r.do_rstrip:
+        return t.rstrip(cs)
+    return t
+
+
+def post_strip_text(r):
+    return r.result._s == strip_expected(r)
+
+
+def strip_offset(r):
+    t = r.old_self._s
+    if r.do_lstrip:
+        return len(t) - len(t.lstrip(strip_set(r)))
+    return 0
+
+
+def strip_k_range(r):
+    return (0, len(r.result._s))
+
+
+def post_strip_view(r):
+    """every surviving character keeps the settings it had at its true offset in the original"""
+    return view_texts(r.result, r.k) == view_texts(r.old_self, strip_offset(r) + r.k)
+
+
+def post_strip_inplace(r):
+    if r.inplace:
+        return r.result is r.self
+    return same_value(r.self, r.old_self)
+
+
+# ------------------------------------------------------------------------------------------ X4 / Y1: partition etc.
+def part_expected(r):
+    """str.partition / str.rpartition of the base text; when the separator is absent both return (s, '', '') here
+    (documented deviation for rpartition)"""
+    t = r.old_self._s
+    if r.right:
+        p = t.rpartition(r.sep)
+        if t.rfind(r.sep) < 0:
+            return (t, '', '')
+        return p
+    return t.partition(r.sep)
+
+
+def post_part_texts(r):
+    e = part_expected(r)
+    return r.result[0]._s == e[0] and r.result[1]._s == e[1] and r.result[2]._s == e[2]
+
+
+def part_offsets(r):
+    t = r.old_self._s
+    if r.right:
+        i = t.rfind(r.sep)
+    else:
+        i = t.find(r.sep)
+    if i < 0:
+        return (0, len(t), len(t))
+    return (0, i, i + len(r.sep))
+
+
+def part_k_range(r):
+    return (0, len(r.old_self._s))
+
+
+def post_part_view(r):
+    """each piece reports, character by character, the settings of the original at the piece's true offset"""
+    off = part_offsets(r)
+    ok = True
+    j = 0
+    for piece in r.result:
+        if r.k < len(piece._s):
+            if view_texts(piece, r.k) != view_texts(r.old_self, off[j] + r.k):
+                ok = False
+        j += 1
+    return ok
+
+
+def post_part_pieces_ok(r):
+    for piece in r.result:
+        if not wf_ok(piece) or piece is r.self:
+            return False
+    return same_value(r.self, r.old_self)
+
+
+def post_rmfix_text(r):
+    t = r.old_self._s
+    if r.suffix_mode:
+        return r.result._s == t.removesuffix(r.fix)
+    return r.result._s == t.removeprefix(r.fix)
+
+
+def rmfix_offset(r):
+    t = r.old_self._s
+    if r.suffix_mode:
+        return 0
+    return len(t) - len(t.removeprefix(r.fix))
+
+
+def rmfix_k_range(r):
+    return (0, len(r.result._s))
+
+
+def post_rmfix_view(r):
+    return view_texts(r.result, r.k) == view_texts(r.old_self, rmfix_offset(r) + r.k)
